@@ -4,6 +4,7 @@ import Qryn.Proofs.SpanZipkin
 import Qryn.Proofs.SpanOtlp
 import Qryn.Proofs.SpanFlatten
 import Qryn.Proofs.SpanJson
+import Qryn.Gen.SpanText
 /-! # C06 — a stored span reads back as the span that was pushed
 
 Theorems about the span model `Qryn.Span` (writer: Zipkin and OTLP decoders over what jx / protobuf hand them, `onSpan`;
@@ -35,44 +36,85 @@ theorem payload_types_agree :
 theorem id_widths : cfg.traceHex = 32 ∧ cfg.spanHex = 16 ∧ cfg.parentHex = 16 ∧ 0 < cfg.spanRowSize ∧ 0 < cfg.tagRowSize := by
   decide
 
+/-- **what the source text says at the text level** (regenerated on every run): the member names `decodeSpan`
+    switches on and `parseEndpoint` handles are those of `absField` / `absEndpoint`; `decodeSpan` refuses a text with
+    anything after the object; the newline-delimited framing splits at line ends with an unbounded buffer; the
+    fastjson look-ups of `parseZipkinJSON` and its two loops are those of the model; `parseOTLP` hands a payload
+    beginning with `{` (123) to `parseOTLPJson`; the JSON `otlpGetServiceNames` has the model's two name lists, no
+    `break`, the same default; `SpanToJSONSpan` hides the all-zero parent and goes through the nil-safe getters. -/
+theorem text_level_sources_agree :
+    Gen.SpanText.writerKeys = writerKeyNames ∧ Gen.SpanText.writerTailCheck = true ∧
+    Gen.SpanText.endpointKeys = ["serviceName"] ∧
+    Gen.SpanText.ndSplit = "bufio.ScanLines" ∧ Gen.SpanText.ndBufferMax = "math.MaxInt" ∧
+    Gen.SpanText.readerGets = readerGetNames ∧
+    Gen.SpanText.readerEndpoints = ["localEndpoint", "remoteEndpoint"] ∧
+    Gen.SpanText.readerEndpointAttrs = ["serviceName", "ipv4", "ipv6"] ∧
+    Gen.SpanText.otlpJsonLead = 123 ∧ Gen.SpanText.otlpJsonCall = "parseOTLPJson" ∧
+    Gen.SpanText.jsonLocalNames = ["peer.service", "service.name", "faas.name", "k8s.deployment.name", "process.executable.name"] ∧
+    Gen.SpanText.jsonRemoteNames = ["service.name", "faas.name", "k8s.deployment.name", "process.executable.name"] ∧
+    Gen.SpanText.jsonBreak = false ∧ Gen.SpanText.jsonDefault = "OTLPResourceNoServiceName" ∧
+    Gen.SpanText.zeroParent = "0000000000000000" ∧ Gen.SpanText.viewNilSafe = true := by decide
+
 /-! ## OTLP writer -/
 
-/-- the OTLP requests that are stored: every span has a 16-byte trace id and an 8-byte span id
-    (any other request is refused as a whole — A6, property C05) -/
+/-- the OTLP requests that are stored: every span has a 16-byte trace id and an 8-byte span id (any other request
+    is refused as a whole — A6, property C05), and no service-name attribute the writer reads lacks its value
+    (`otlpFault`: a nil-pointer panic in the parser goroutine, tamed into an error response) -/
 def OtlpAccepted (td : TracesData) : Prop :=
-  ∀ r ∈ otlpSpans td, r.2.traceId.length = 16 ∧ r.2.spanId.length = 8
+  ∀ r ∈ otlpSpans td, r.2.traceId.length = 16 ∧ r.2.spanId.length = 8 ∧ otlpFault cfg (r.2.attrs ++ r.1) = false
 
 /-- the `onSpan` arguments of every span of a request, in the order of the three nested loops -/
 def otlpAllArgs (plen : OSpan → Nat) (td : TracesData) : List Args :=
   (otlpSpans td).map (fun r => otlpArgs cfg plen r.1 r.2)
 
+/-- no span of the list faults in the service-name look-up -/
+def noFault (rs : List (List KV × OSpan)) : Bool := rs.all (fun r => !otlpFault cfg (r.2.attrs ++ r.1))
+
 private theorem otlp_decodeAll (plen : OSpan → Nat) : ∀ (rs : List (List KV × OSpan)),
-    decodeAll (fun (_ : Unit) (r : List KV × OSpan) => (.ok ((), otlpArgs cfg plen r.1 r.2) : Except Reject (Unit × Args))) () rs
-      = some (rs.map (fun r => otlpArgs cfg plen r.1 r.2)) := by
+    decodeAll (otlpDec cfg plen) () rs
+      = if noFault rs then some (rs.map (fun r => otlpArgs cfg plen r.1 r.2)) else none := by
   intro rs
   induction rs with
   | nil => rfl
-  | cons r rs ih => simp [decodeAll, ih]
+  | cons r rs ih =>
+    have hc : noFault (r :: rs) = (!otlpFault cfg (r.2.attrs ++ r.1) && noFault rs) := by simp [noFault]
+    rw [hc]
+    unfold decodeAll
+    by_cases hf : otlpFault cfg (r.2.attrs ++ r.1) = true
+    · simp [otlpDec, hf]
+    · have hf' : otlpFault cfg (r.2.attrs ++ r.1) = false := by simpa using hf
+      simp only [otlpDec, hf', Bool.false_eq_true, if_false, Bool.not_false, Bool.true_and]
+      rw [ih]
+      cases noFault rs <;> simp
 
 private theorem otlpArgs_accepted (plen : OSpan → Nat) (ra : List KV) (s : OSpan) :
     (otlpArgs cfg plen ra s).accepted = true ↔ s.traceId.length = 16 ∧ s.spanId.length = 8 := by
   simp [otlpArgs, Args.accepted]
 
-/-- an OTLP request is stored iff all its spans have ids of the right length -/
+/-- an OTLP request is stored iff all its spans have ids of the right length and none faults -/
 theorem otlp_accepted_iff (plen : OSpan → Nat) (td : TracesData) :
     (writeOTLP cfg plen td).ok = true ↔ OtlpAccepted td := by
   constructor
   · intro h
     obtain ⟨as, h1, h2, _, _⟩ := runSpans_ok cfg cfg.otlpType _ (otlpSpans td) () {} h
     rw [otlp_decodeAll] at h1
-    injection h1 with h1; subst h1
-    intro r hr
-    exact (otlpArgs_accepted plen r.1 r.2).mp (h2 _ (List.mem_map.mpr ⟨r, hr, rfl⟩))
+    by_cases hnf : noFault (otlpSpans td) = true
+    · simp only [hnf, if_true, Option.some.injEq] at h1; subst h1
+      intro r hr
+      have := (otlpArgs_accepted plen r.1 r.2).mp (h2 _ (List.mem_map.mpr ⟨r, hr, rfl⟩))
+      have hf := List.all_eq_true.mp hnf r hr
+      exact ⟨this.1, this.2, by simpa using hf⟩
+    · simp [hnf] at h1
   · intro h
-    apply runSpans_ok_of cfg cfg.otlpType _ (otlpSpans td) () {} _ (otlp_decodeAll plen _)
+    have hnf : noFault (otlpSpans td) = true := by
+      apply List.all_eq_true.mpr
+      intro r hr
+      simp [(h r hr).2.2]
+    apply runSpans_ok_of cfg cfg.otlpType _ (otlpSpans td) () {} ((otlpSpans td).map (fun r => otlpArgs cfg plen r.1 r.2))
+      (by rw [otlp_decodeAll]; simp [hnf])
     intro a ha
     obtain ⟨r, hr, rfl⟩ := List.mem_map.mp ha
-    exact (otlpArgs_accepted plen r.1 r.2).mpr (h r hr)
+    exact (otlpArgs_accepted plen r.1 r.2).mpr ⟨(h r hr).1, (h r hr).2.1⟩
 
 /-- **one_row_per_span (OTLP).** For every stored OTLP request — any number of resource/scope groups, any
     attributes, and wherever the 1 MiB flushes fall — the trace rows sent are exactly one row per span, in
@@ -83,7 +125,11 @@ theorem one_row_per_span_otlp (plen : OSpan → Nat) (td : TracesData) (h : (wri
     (writeOTLP cfg plen td).traces.length = (otlpSpans td).length := by
   obtain ⟨as, h1, _, h3, h4⟩ := runSpans_ok cfg cfg.otlpType _ (otlpSpans td) () {} h
   rw [otlp_decodeAll] at h1
-  injection h1 with h1; subst h1
+  have hnf : noFault (otlpSpans td) = true := by
+    by_cases hnf : noFault (otlpSpans td) = true
+    · exact hnf
+    · simp [hnf] at h1
+  simp only [hnf, if_true, Option.some.injEq] at h1; subst h1
   have e1 : (writeOTLP cfg plen td).traces = (otlpAllArgs plen td).map (traceRowOf cfg.otlpType) := by
     rw [Outcome.traces_eq]; unfold writeOTLP; rw [h3]; simp [Builder.chunks, chunksTraces, otlpAllArgs]
   refine ⟨e1, ?_, ?_⟩
@@ -1155,8 +1201,7 @@ theorem size_pos_otlp (plen : OSpan → Nat) (td : TracesData) :
     ∀ k ∈ (writeOTLP cfg plen td).chunks, (k.traces ≠ [] → 0 < k.spansSize) ∧ (k.tags ≠ [] → 0 < k.tagsSize) := by
   intro k hk
   obtain ⟨_, _, _, hs, ht⟩ := id_widths
-  have := runSpans_sizeOk cfg cfg.otlpType
-    (fun (_ : Unit) (r : List KV × OSpan) => (.ok ((), otlpArgs cfg plen r.1 r.2) : Except Reject (Unit × Args)))
+  have := runSpans_sizeOk cfg cfg.otlpType (otlpDec cfg plen)
     (otlpSpans td) () ({} : Builder) (by intro k hk; simp [Builder.chunks] at hk; subst hk; exact ⟨by simp, by simp⟩) k hk
   obtain ⟨h1, h2⟩ := this
   constructor
@@ -1202,7 +1247,10 @@ example : OtlpAccepted exTraces := by
   intro r hr
   simp [otlpSpans, exTraces] at hr
   subst hr
-  exact ⟨rfl, rfl⟩
+  exact ⟨rfl, rfl, by decide⟩
+
+/-- a `service.name` attribute without a value refuses the whole request -/
+example : (writeOTLP cfg (fun _ => 0) [⟨[(kServiceName, .nilp)], [[exOSpan]]⟩]).ok = false := by decide
 
 example : (writeOTLP cfg (fun _ => 0) exTraces).ok = true := by decide
 
